@@ -253,7 +253,10 @@ def completeness(E, h, anc, V, C, rnd, tier):
     if tier == "quick":
         rnd.shuffle(P)
         cat = [x for x in P if x[2][0] in ("s", "tz", "none") or x[2][0] == "q" and x[3].startswith("empty")]
-        P = (cat[:12] + [x for x in P if x not in cat])[:24 if not cat else 30]
+        # durations scaled across an hour boundary change floors / ceils of shifts and spreads: always tried
+        dur = [x for x in P if x[1] in edits.CAP_HOURS and x[3] in ("x10", "x3600")]
+        first = cat[:10] + dur[:10]
+        P = (first + [x for x in P if x not in first])[:24 + len(first) // 2]
     ids = {n: h.objs[n].id for n in spec["objects"] if n in h.objs}
     anc_closure = {}
     for n, p, new, label in P:
